@@ -1060,3 +1060,59 @@ def held_yields(body, ev):
                 owner = c
         out.append((y, owner))
     return out
+
+
+# --------------------------------------------------------------------------
+# E6 — poll discipline
+
+def poll_fns(prog):
+    out = []
+    for lz in prog.lazy:
+        if lz.kind not in ("assoc_fn", "fn") or lz.path != lz.root:
+            continue
+        last = lz.path.rsplit("::", 1)[-1]
+        if not last.startswith("poll"):
+            continue
+        b = lz.get()
+        if strip_generics(b.locals[0]["ty"]).startswith("core::task::poll::Poll"):
+            out.append(b)
+    return out
+
+
+def inner_polls(body):
+    out = []
+    for c in sem_calls(body):
+        last = c.name.rsplit("::", 1)[-1]
+        if last.startswith("poll") and c.result is not None and \
+                strip_generics(body.locals[c.result]["ty"]).startswith("core::task::poll::Poll"):
+            out.append(c)
+    return out
+
+
+def pending_exits(body):
+    """(bb, stmt idx) of every `_0 = Poll::Pending` plus classification"""
+    res = []
+    inner = inner_polls(body)
+    wakes = [c for c in sem_calls(body) if c.is_("core::task::wake::Waker::wake_by_ref", "core::task::wake::Waker::wake")]
+    for bb, k, pl, rv, st in body.assigns():
+        if pl.local != 0 or pl.proj or rv["k"] != "agg" or rv.get("adt") is None:
+            continue
+        if strip_generics(rv["adt"]) != "core::task::poll::Poll" or rv["variant"] != "Pending":
+            continue
+        why = None
+        for p in inner:
+            for br in branches_on(body, p.result, p.done_bb):
+                e = br.edge("pending")
+                if e and edge_dominates(body, e, bb):
+                    why = "passthrough of %s returning Pending" % p.name.rsplit("::", 1)[-1]
+        if why is None:
+            for w in wakes:
+                if body.dominates(w.bb, bb):
+                    why = "woken (%s) before returning Pending" % w.name.rsplit("::", 1)[-1]
+        if why is None:
+            # a Pending that does not exit (loops back to the inner poll) is not an exit at all
+            r = body.reachable(bb)
+            if not any(x in r for x in body.exits()):
+                why = "does not reach an exit"
+        res.append((bb, k, why))
+    return res, inner
